@@ -225,21 +225,31 @@ def check_same_numerals(ctx, rng):
     mon = rng.choice(["ond", "ond", "offd", "past"])
     fine, coarse = rng.choice([("ms", "s"), ("us", "ms"), ("ns", "us")])
     k = rng.randint(1, 3)
-    ops = ["once", "historically"] if mon == "ond" else (["eventually", "always"] if mon == "past" else
-                                                         ["once", "historically", "eventually", "always"])
+    ops = ["once", "historically", "since"] if mon == "ond" else (["eventually", "always", "until"] if mon == "past" else
+                                                                  ["once", "historically", "eventually", "always", "since", "until"])
     op1 = rng.choice(ops)
-    op2 = op1 if rng.random() < 0.6 else rng.choice(ops)      # the same operator over the same operand: same printed name but for the bounds
+    if op1 in ("since", "until") and rng.random() < 0.6:
+        op1 = rng.choice([o for o in ops if o not in ("since", "until")])
+    op2 = op1 if rng.random() < 0.6 else rng.choice([o for o in ops if o not in ("since", "until")])      # the same operator over the same operand: same printed name but for the bounds
+    slow = op1 in ("since", "until")         # rtamt's bounded since / until are quadratic in the bound (1000 samples here)
+    if slow:
+        k = 1
     p = "(a >= %s)" % rng.choice(["0.5", "1.0", "2.0"])
     con = rng.choice(["and", "or"])
     neg = rng.choice(["", "not "])
 
+    def app(op, b):
+        if op in ("since", "until"):
+            return "((a <= 3.0) %s[0,%s] %s)" % (op, b, p)
+        return "(%s[0,%s] %s)" % (op, b, p)
+
     def spec(b1, b2):
-        return "out = ((%s[0,%s] %s) %s (%s(%s[0,%s] %s)))" % (op1, b1, p, con, neg, op2, b2, p)
+        return "out = (%s %s (%s%s))" % (app(op1, b1), con, neg, app(op2, b2))
     text_a = spec("%d%s" % (k, coarse), "%d%s" % (k, fine))            # same numerals, different units
     text_b = spec("%d%s" % (k * 1000, fine), "%d%s" % (k, fine))       # the same durations, everything in the finer unit
     if rng.random() < 0.5:
         text_a = text_a.replace("%d%s]" % (k, fine), "%d]" % k)        # ... or the finer one is the default unit, left out
-    n = rng.randint(3, 9)
+    n = rng.randint(3, 4) if slow else rng.randint(3, 9)
     data = {"a": [rng.choice([-1.0, 0.0, 1.0, 2.0, 3.0, 5.0]) for _ in range(n)]}
     cfg = (fine, Fraction(1), fine)
     ctx.evaluations += 1
